@@ -335,6 +335,7 @@ type FuncReport struct {
 	Returns   int
 	Unsupported string
 	Vacuity   string // "" ok, else reason
+	NeverEvents []string // event names the contract mentions that no path produces (such clauses can only state absence)
 	Covers    int
 	Trusted   string
 	Ms        int64
@@ -697,7 +698,44 @@ func (e *Engine) verifyFunc(fn *ssa.Function, c *Contract) (rep *FuncReport) {
 			rep.Vacuity = "no return path is satisfiable under the contract's requires (contradictory contract or axioms)"
 		}
 	}
+	// event names the contract mentions that no explored path produced
+	seenLit := map[string]bool{}
+	for _, cl := range c.allClauses() {
+		for _, m := range reEventLit.FindAllStringSubmatch(cl.Text, -1) {
+			for _, q := range reQuoted.FindAllStringSubmatch(m[1], -1) {
+				name := e.stableEventName(fn, q[1])
+				if !ctx.eventsSeen[name] && !seenLit[q[1]] {
+					seenLit[q[1]] = true
+					rep.NeverEvents = append(rep.NeverEvents, q[1])
+				}
+			}
+		}
+	}
+	sort.Strings(rep.NeverEvents)
 	return rep
+}
+
+var reEventLit = regexp.MustCompile(`(?:count|before|notafter|itercount|evarg|iterarg)\(([^)]*)\)`)
+var reQuoted = regexp.MustCompile(`"([^"]+)"`)
+
+// allClauses lists every clause of the contract (for textual scans).
+func (c *Contract) allClauses() []Clause {
+	var out []Clause
+	out = append(out, c.Requires...)
+	out = append(out, c.Ensures...)
+	out = append(out, c.EnsuresLocal...)
+	out = append(out, c.EnsuresAssumed...)
+	out = append(out, c.Assumes...)
+	for _, hs := range c.Hooks {
+		for _, h := range hs {
+			out = append(out, h.Cl)
+		}
+	}
+	for _, ls := range c.Loops {
+		out = append(out, ls.Invariants...)
+		out = append(out, ls.IterEnsures...)
+	}
+	return out
 }
 
 func (st *State) obligeNoAssume(name, kind, pos string, goal Term, desc string) {
